@@ -20,11 +20,16 @@ def run_mgm(eng, p):
     algo = p["algo"]
     begin(eng, random_modules=["pydcop.algorithms." + algo, "pydcop.dcop.relations",
                                "pydcop.infrastructure.computations"])
+    if eng.symbolic:
+        # float() in the algorithm modules (absent from the unchanged code): float64 image of the symbolic number
+        import importlib
+        from symex import shims
+        shims.install_float_round53(importlib.import_module("pydcop.algorithms." + algo))
     if algo == "mgm2":
         from pydcop.algorithms.mgm2 import Mgm2Computation
         Mgm2Computation._compute_cost.cache_clear()
     lo, hi = p.get("range", (-BIG, BIG))
-    inst = Instance(eng, p["spec"], lo=lo, hi=hi, entry_kinds=p.get("kinds"))
+    inst = Instance(eng, p["spec"], lo=lo, hi=hi, entry_kinds=p.get("kinds"), real=bool(p.get("real")))
     params = {"stop_cycle": p["stop"]}
     params.update(p.get("params", {}))
     cg, comps = build_computations(inst.dcop, algo, inst.mode, params)
